@@ -731,9 +731,11 @@ class SyncState:  # pylint: disable=too-many-instance-attributes, too-many-publi
                     ent = SyncEntry(self, None, (eid, ent_ser))
                     for side in [LOCAL, REMOTE]:
                         path, oid = ent[side].path, ent[side].oid
-                        if path not in self._paths[side]:
-                            self._paths[side][path] = {}
-                        self._paths[side][path][oid] = ent
+                        if oid is None:
+                            # a side without an id is not indexed and its change stamp is not pending (as on a live state)
+                            continue
+                        if path:
+                            self._paths[side].setdefault(path, {})[oid] = ent
                         self._oids[side][oid] = ent
                         if ent[side].changed:
                             self._changeset_storage.add(ent)
